@@ -280,8 +280,14 @@ class Walker:
                     group.append(effs[j])
                     j += 1
                 out_brk = set()
-                for it in group:
+                for gi_, it in enumerate(group):
                     r = self.walk(it.body, frozenset(cur))
+                    if gi_ < len(group) - 1 and len(group) > 1 and getattr(it, 'value', None) is not None and it.value[0] == 'tuple' and it.value[1] \
+                            and is_enum_member(it.value[1][0]):
+                        # the run is left in the middle of the criterion list: legitimate only after a non-Optimal status was seen
+                        for full_ in r['ret']:
+                            if self._st(full_)[0] in ('init', 'clean'):
+                                self.violations.append(('early-exit', it, self._st(full_)[1]))
                     ret |= r['ret']
                     out_brk |= r['brk']
                     cur = r['fall'] | r['cont']
